@@ -137,7 +137,7 @@ class LayoutFamily(Family):
         self.dmax, self.cycles, self.states = dmax, tuple(cycles), states
         self.name = 'layout-subchains(d<=%d)' % dmax
         self.rule = ('every contiguous data-ancilla-...-data sub-chain with up to %d data qubits of the three shipped repetition layouts through from_connectivity x cycles %r x refocusing on/off x '
-                     '%s; non-trivial = always (gate order comes from the layout)' % (dmax, list(cycles), 'all computational states' if states == 'all' else 'four state patterns'))
+                     '%s; non-trivial = always (gate order comes from the layout)' % (dmax, list(cycles), 'all computational states' if states == 'all' else 'six state patterns'))
 
     def shards(self, tier):
         return [(n, c) for n in LAYOUTS for c in self.cycles]
@@ -152,7 +152,9 @@ class LayoutFamily(Family):
                 if self.states == 'all':
                     pats = list(itertools.product((0, 1), repeat=2 * d - 1))
                 else:
-                    pats = [tuple([0] * (2 * d - 1)), tuple([1] * d + [0] * (d - 1)), tuple([i % 2 for i in range(d)] + [1] * (d - 1)), tuple([1, 0] * d)[:d] + tuple([0, 1] * d)[:d - 1]]
+                    pats = [tuple([0] * (2 * d - 1)), tuple([1] * d + [0] * (d - 1)), tuple([i % 2 for i in range(d)] + [1] * (d - 1)), tuple([1, 0] * d)[:d] + tuple([0, 1] * d)[:d - 1],
+                            # neighbouring parities differ: a permutation of the ancillas inside a round is visible in the record
+                            tuple([1] + [0] * (d - 1) + [0] * (d - 1)), tuple([0] * (d - 1) + [1] + [1] + [0] * (d - 2))]
                 for bits in pats:
                     for refocus in (True, False):
                         yield (name, sub, cycles, refocus, bits)
